@@ -531,7 +531,8 @@ Lemma redo_st_update a b name rowid cols vals b1 ws :
   Rel a b -> st_update b name rowid cols vals = (b1, Ok ws) ->
   exists a1, replay a ws = RCont a1 /\ Rel a1 b1.
 Proof.
-  intros HR. unfold st_update. destruct (is_sys_table name); [discriminate|].
+  intros HR. unfold st_update. destruct (upd_bad_cols _ _ _); [discriminate|]. unfold st_update0.
+  destruct (is_sys_table name); [discriminate|].
   destruct (rel_offset b name) as [off|e|]; cbn [bind]; try discriminate.
   destruct (get_tree b off) as [t|e|] eqn:Eg; cbn [bind]; try discriminate.
   destruct (rel_schema b name) as [sch|e|]; cbn [bind]; try discriminate.
@@ -689,7 +690,8 @@ Lemma st_insert_shape b name cols vals b2 ws :
      (newroot <> off /\ exists ws', update_page_table b1 newroot name = (b2, Ok ws') /\
                                     ws = mkWal OpInsert lsn off k bs :: ws')).
 Proof.
-  unfold st_insert. destruct (is_sys_table name) eqn:Esys; [discriminate|]. fold (ins_prelude b name cols vals).
+  unfold st_insert. destruct (ins_bad_cols _ _ _ _); [discriminate|]. unfold st_insert0.
+  destruct (is_sys_table name) eqn:Esys; [discriminate|]. fold (ins_prelude b name cols vals).
   destruct (ins_prelude b name cols vals) as [[off bs]|e|]; try discriminate.
   destruct (bt_insert b off bs) as [b1 [[[k lsn] nr]|e|]] eqn:Eb; try discriminate.
   destruct (N.eqb_spec nr off) as [E|E].
